@@ -12,10 +12,10 @@ from ..lean import Driver
 LEVEL = 2   # compare document path, code, schema path, rule, value, constraint, counts, children
 
 
-def compare(ctx, drv, case, port_name='validate0', level=LEVEL):
+def compare(ctx, drv, case, port_name='validate0', level=LEVEL, ref=False):
     """returns (status, detail); status in ok / mismatch / ood"""
     try:
-        rep = ports.model_validate0(drv, case)
+        rep = ports.model_validate0(drv, case, ref=ref)
     except codec.OutOfUniverse:
         ctx.cov['out_of_domain'] += 1
         return 'ood', None
@@ -45,13 +45,13 @@ def run(ctx, n):
                        'validate(normalize=False) on the real code vs the Lean reference interpreter; compared: verdict and the '
                        'error forest (document path, code, schema path, rule, value, constraint, *of counts, children); '
                        'non-trivial = at least one error; distinct by canonical (schema, document, config)')
-    profiles = ['validate', 'of', 'deep', 'wrong', 'validate', 'mixed']
+    profiles = ['validate', 'of', 'deep', 'wrong', 'validate', 'mixed', 'nones']
     with Driver() as drv:
         for i, prof, case, g in cases.stream(ctx.seed, n, profiles):
             if cases.accepted(case) is not True:
                 ctx.dist('skipped', 'schema not accepted')
                 continue
-            st, detail = compare(ctx, drv, case)
+            st, detail = compare(ctx, drv, case, ref=True)
             jcase = real.enc_case(case)
             if st == 'mismatch':
                 ctx.fail('C01: real validate(normalize=False) differs from the reference interpreter', jcase, detail=detail)
@@ -79,7 +79,7 @@ def search(ctx, n):
         for i, prof, case, g in cases.stream(ctx.seed + 7919, n, profiles):
             if cases.accepted(case) is not True:
                 continue
-            st, detail = compare(ctx, drv, case)
+            st, detail = compare(ctx, drv, case, ref=True)
             if st == 'mismatch':
                 ctx.fail('C01: real validate(normalize=False) differs from the reference interpreter',
                          real.enc_case(case), detail=detail)
